@@ -43,6 +43,15 @@ def _val(x):
         return out
     if isinstance(x, torch.Tensor):
         return x.detach().numpy().astype(float)
+    if isinstance(x, st.SymFloat):
+        v = alg.evalf(x.p, ENV)
+        return np.asarray(float(v.real if isinstance(v, complex) else v))
+    if isinstance(x, np.ndarray) and x.dtype == object:
+        out = np.empty(x.shape, dtype=float)
+        for k in np.ndindex(*x.shape):
+            v = alg.evalf(alg.to_P(x[k]), ENV)
+            out[k] = float(v.real if isinstance(v, complex) else v)
+        return out
     if isinstance(x, (tuple, list)):
         return [_val(y) for y in x]
     return np.asarray(x, dtype=float)
@@ -130,7 +139,75 @@ def cases(rng):
     add("sigmoid_", lambda x: x.clone().sigmoid_(), a)
     add("parameters_to_vector", lambda x, y: torch.nn.utils.parameters_to_vector([x, y]), a, v)
     add("var_mean", lambda x: list(torch.var_mean(x)), R(5))
+    # every primitive model that the proofs on the unchanged tree go through has at least one case (cli reports models a
+    # run used without one, see `covered`)
+    add("len", lambda x: float(len(x)), R(3, 2))
+    add("abs_", lambda x: x.clone().abs_(), a)
+    add("clamp min max", lambda x: x.clamp(min=-0.75, max=0.75), a)
+    add("clamp min", lambda x: torch.clamp(x, min=0.25), a)
+    add("clamp_ max", lambda x: x.clone().clamp_(max=0.25), a)
+    add("contiguous of a transposed view", lambda x: x.t().contiguous(), a)
+    add("cpu / detach / to / requires_grad_", lambda x: x.cpu().detach().to(dtype=torch.double).requires_grad_(False) * 2, a)
+    add("to(other)", lambda x, y: x.to(y) + y, a, b)
+    add("dim / size", lambda x: float(x.dim() * 100 + x.size(0) * 10 + x.size()[1] + x.shape[-1]), a)
+    add("item", lambda x: x.sum().item() * 1.0, a)
+    add("mul_", lambda x, y: x.clone().mul_(y), a, b)
+    add("mul_ scalar", lambda x: x.clone().mul_(-1.5), a)
+    add("pow_", lambda x: x.clone().pow_(2), a)
+    add("sqrt_", lambda x: x.clone().sqrt_(), P(2, 3))
+    add("squeeze_", lambda x: x.unsqueeze(0).clone().squeeze_(0), a)
+    add("squeeze_ all", lambda x: x.clone().squeeze_(), R(1, 3, 1))
+    add("numpy()", lambda x: torch.tensor(np.asarray(x.detach().cpu().numpy()) * 2.0) if not isinstance(x, st.SymTensor) else x.detach().cpu().numpy() * 2.0, a)
+    add("numpy arithmetic", lambda x, y: _np_chain(x, y), P(2, 3), P(2, 3))
+    add("numpy einsum / prod / conj", lambda x, y: _np_chain2(x, y), R(2, 3), R(2, 3))
+    add("torch.tensor(numpy of sym)", lambda x: torch.tensor(x.numpy() + 1.0, dtype=torch.double), a)
+    add("tan / atan", lambda x: torch.atan(torch.tan(x) * 2), a)
+    add("tanh", lambda x: torch.tanh(x), a)
+    add("log1p / expm1", lambda x: torch.log1p(x) - torch.expm1(x), P(2, 3))
+    add("relu", lambda x: F.relu(x), a)
+    add("reciprocal", lambda x: x.reciprocal() + torch.reciprocal(x), P(2, 3))
+    add("rsqrt / square", lambda x: x.rsqrt() * x.square(), P(2, 3))
+    add("addcmul", lambda x, y, z: torch.addcmul(x, y, z, value=0.5), a, b, R(2, 3))
+    add("addcmul_", lambda x, y, z: x.clone().addcmul_(y, z, value=-2), a, b, R(2, 3))
+    add("addcdiv_", lambda x, y, z: x.clone().addcdiv_(y, z), a, b, P(2, 3))
+    add("addmm / addmv", lambda x, y, z, w: torch.addmm(x, y, z).sum(0) + torch.addmv(w, z.t(), y[0]), R(2, 4), a, m, R(4))
+    add("mm / bmm", lambda x, y, z, w: torch.mm(x, y).unsqueeze(0) + torch.bmm(z, w), a, m, R(1, 2, 3), R(1, 3, 4))
+    add("outer / inner / vdot", lambda x, y: torch.outer(x, y) * torch.inner(x, y) + torch.vdot(x, y), v, R(3))
+    add("tensordot", lambda x, y: torch.tensordot(x, y, dims=1), a, m)
+    add("narrow / select", lambda x: x.narrow(1, 1, 2) + x.select(1, 0).unsqueeze(1), a)
+    add("chunk / split / unbind", lambda x: list(x.chunk(2, dim=1)) + list(x.split(2, dim=1)) + list(x.unbind(0)), R(2, 5))
+    add("permute / movedim / swapaxes", lambda x: x.permute(2, 0, 1) + x.movedim(2, 0) + x.swapaxes(0, 2).swapaxes(1, 2), R(2, 3, 2))
+    add("flip", lambda x: x.flip(1), a)
+    add("flatten", lambda x: x.flatten(), R(2, 3, 2))
+    add("expand_as / view_as", lambda x, y: x.expand_as(y) + y.view_as(y), v, a)
+    add("index_select", lambda x: x.index_select(1, torch.tensor([2, 0])), a)
+    add("prod / trace / diag", lambda x: x.prod() + torch.trace(x) + torch.diag(x).sum(), R(3, 3))
+    add("new_zeros / new_ones / full_like / ones_like", lambda x: x.new_zeros(2, 3) + x.new_ones(2, 3) + torch.full_like(x, 1.5) + torch.ones_like(x), a)
+    add("copy_ / fill_ / zero_", lambda x, y: x.clone().copy_(y) + x.clone().fill_(2.0) + x.clone().zero_(), a, b)
+    add("neg_ / exp_ / cos_ / sin_", lambda x: x.clone().neg_().exp_() + x.clone().cos_() + x.clone().sin_(), a)
+    add("log_", lambda x: x.clone().log_(), P(2, 3))
+    add("sinh / cosh", lambda x: torch.sinh(x) + torch.cosh(x), a)
+    add("logaddexp", lambda x, y: torch.logaddexp(x, y), a, b)
+    add("numel / nelement / ndimension", lambda x: float(x.numel() + x.nelement() * 10 + x.ndimension() * 100), a)
+    add("where on a concrete mask", lambda x, y: torch.where(torch.tensor([[True, False, True], [False, True, True]]), x, y), a, b)
+    add("sigmoid", lambda x: torch.sigmoid(x), a)
+    add("true_divide / divide / multiply / subtract", lambda x, y: torch.true_divide(x, y) + torch.divide(x, y) + torch.multiply(x, y) - torch.subtract(x, y), a, P(2, 3))
     return out
+
+
+def _np_chain(x, y):
+    xn, yn = x.numpy(), y.numpy()
+    r = np.sqrt(np.multiply(xn, yn)) + np.exp(xn) + np.divide(xn, yn) + np.add(xn, yn) + np.absolute(xn) + np.sum(xn, axis=0)
+    return r if isinstance(x, st.SymTensor) else torch.tensor(r)
+
+
+def _np_chain2(x, y):
+    z = x.numpy() + 1j * y.numpy()
+    r = np.einsum("ib,jb->ijb", z, np.conj(z))
+    q = np.prod(z, axis=-1)
+    w = np.matmul(z, np.conjugate(z).T)
+    res = np.real(r).sum(axis=-1) + np.imag(w) + np.real(q)[:, None]
+    return res if isinstance(x, st.SymTensor) else torch.tensor(res)
 
 
 def inplace_cases(rng):
@@ -185,6 +262,19 @@ def inplace_cases(rng):
 def run(seed=0):
     rng = np.random.default_rng(seed)
     bad, n = [], 0
+    before = dict(st.PRIMS_USED)
+    try:
+        return _run(rng, bad, n)
+    finally:
+        COVERED.update(k for k, c in st.PRIMS_USED.items() if c != before.get(k, 0))
+        st.PRIMS_USED.clear()
+        st.PRIMS_USED.update(before)
+
+
+COVERED = set()        # primitive models exercised by the last run()
+
+
+def _run(rng, bad, n):
     for name, f, args in cases(rng) + inplace_cases(rng):
         n += 1
         try:
